@@ -1,9 +1,10 @@
 (** C03 — compiled execution equals the dataflow meaning of the user's graph.
     Models: Graph/Net.v (compilers, loaders, executor), Graph/Denote.v (user-level meaning used
     as the decidable spec on implementation outputs).  Proofs: Proofs/C03_Exec.v, C03_Compile.v,
-    C03_Ancestors.v, C03_EndToEnd.v. *)
+    C03_Ancestors.v, C03_EndToEnd.v, C03_Twins.v. *)
 From Coq Require Import List String ZArith Arith Bool.
-From Elfi Require Import Graph.Net Graph.Denote Proofs.C03_Exec Proofs.C03_Compile Proofs.C03_Ancestors Proofs.C03_EndToEnd.
+From Elfi Require Import Graph.Net Graph.Denote Proofs.C03_Exec Proofs.C03_Compile Proofs.C03_Ancestors Proofs.C03_EndToEnd
+     Proofs.C03_Twins.
 Import ListNotations.
 
 (** The dataflow meaning [Den] of a loaded net is a function of the net. *)
@@ -104,8 +105,8 @@ Definition ex_src : snet :=
     batch_size / meta / random_state declarations, any supplied with_values, any requested
     outputs), whatever generate returns after all five compilers (incl. the reduction to the
     ancestors of the outputs), the loaders and the executor is the user-level dataflow meaning
-    [den_name] of the requested node.  (With observed twins the same statement is covered by the
-    correspondence check only.) *)
+    [den_name] of the requested node.  (The general statement, with observed twins, is
+    [C03_generate_is_dataflow] below.) *)
 Theorem C03_generate_twin_free_is_dataflow :
   forall src outs W out log,
     plain src -> NoDup (map fst W) -> (forall k, In k (map fst W) -> ~ In k inames) ->
@@ -154,3 +155,49 @@ Example C03_example :
                [("observed"%string, VApp OpTuple [VApp (OpUser "s"%string) [VConst 7] []] [])])],
         ["_s_observed"%string; "_d_observed"%string; "t"%string; "y"%string; "s"%string; "d"%string]).
 Proof. vm_compute. reflexivity. Qed.
+
+(** End to end, with observed twins: for EVERY well-formed source net [wfsrc] (distinct node names;
+    edges between source nodes, one per ordered pair; the reserved runtime names are not nodes;
+    observable nodes carry an operation; the observed data has distinct keys, each an observable
+    node) and any supplied with_values, whatever generate returns after the five compilers (incl. the
+    ObservedCompiler's twins, copied edges and "observed" tuples, and the reduction), the three
+    loaders and the executor is the user-level dataflow meaning [den_name] of the requested node or
+    of the requested observed twin.  Acyclicity, twin names not clashing with node names and the
+    existence of an operation are not assumed: they follow from [generate] not raising. *)
+Theorem C03_generate_is_dataflow :
+  forall src outs W out log,
+    wfsrc src -> NoDup (map fst W) -> (forall k, In k (map fst W) -> ~ In k inames) ->
+    generate src outs W = Ok (out, log) ->
+    forall o v, In (o, v) out ->
+      (has o (s_nodes src) = true
+       \/ exists x st, lookup x (s_nodes src) = Some st /\ o = observed_name x
+                       /\ (s_observable st = true \/ s_uses_observed st = true)) ->
+      den_name src W o = Some v.
+Proof. exact generate_sound. Qed.
+Print Assumptions C03_generate_is_dataflow.
+
+(** Non-vacuity of the theorem with twins: the five-node model [ex_src] (prior -> simulator with
+    data -> summary -> discrepancy using the observed tuple, + an unused node) meets [wfsrc],
+    generate succeeds on it for the discrepancy and for a twin, and runs the twins' operations. *)
+Example C03_generate_is_dataflow_example :
+  wfsrc_b ex_src = true
+  /\ match generate ex_src ["d"; "_s_observed"]%string [] with
+     | Ok (out, log) => List.length out = 2%nat /\ List.length log = 6%nat
+     | Err _ => False
+     end.
+Proof. vm_compute. repeat split. Qed.
+
+Example C03_generate_is_dataflow_instance :
+  den_name ex_src [] "d"%string
+  = Some (VApp (OpUser "d"%string)
+               [VApp (OpUser "s"%string) [VApp (OpUser "y"%string) [VApp (OpUser "t"%string) [VConst 1]
+                                                          [("batch_size"%string, VBatch); ("random_state"%string, VRng)]]
+                                                     [("batch_size"%string, VBatch); ("random_state"%string, VRng)]] []]
+               [("observed"%string, VApp OpTuple [VApp (OpUser "s"%string) [VConst 7] []] [])]).
+Proof.
+  assert (H : generate ex_src ["d"%string] [] = Ok ([("d"%string, _)], _)) by exact C03_example.
+  assert (Hwf : wfsrc ex_src) by (apply wfsrc_b_sound; vm_compute; reflexivity).
+  refine (C03_generate_is_dataflow ex_src _ [] _ _ Hwf _ _ H _ _ (or_introl eq_refl) (or_introl eq_refl)).
+  - constructor.
+  - intros k [].
+Qed.
